@@ -132,3 +132,13 @@ Definition target_eqb (a b : target) : bool :=
   | TRaise, TRaise => true
   | _, _ => false
   end.
+From NP Require Import Closure.
+Definition kind_eqb (a b : kind) : bool := match a, b with KNested, KNested | KPlain, KPlain => true | _, _ => false end.
+Definition tframe_eqb (a b : tframe) : bool :=
+  kind_eqb (tk a) (tk b) && list_eqb (fun x y => str_eqb (fst x) (fst y) && tag_eqb (snd x) (snd y)) (tcols a) (tcols b).
+(* a chain of real steps: (effect, observed typed result); the model must predict every observed typing and keep it closed *)
+Fixpoint chk_chain (t : tframe) (steps : list (effect * tframe)) : bool :=
+  match steps with
+  | [] => true
+  | (e, t') :: r => effect_ok t e && tframe_eqb (cstep true t e) t' && closed t' && chk_chain t' r
+  end.
